@@ -154,10 +154,82 @@ func load(o loadOpts) (*Prog, error) {
 	}
 	sort.Slice(p.Pkgs, func(i, j int) bool { return p.Pkgs[i].ID < p.Pkgs[j].ID })
 	p.Desugared = desugarSwitches(p)
+	partlyWritten = map[types.Object]bool{}
+	for _, pk := range p.Pkgs {
+		info := pk.TypesInfo
+		base := func(e ast.Expr) types.Object {
+			through := false
+			for {
+				switch x := ast.Unparen(e).(type) {
+				case *ast.Ident:
+					if !through {
+						return nil
+					}
+					return info.ObjectOf(x)
+				case *ast.SelectorExpr:
+					e, through = x.X, true
+				case *ast.IndexExpr:
+					e, through = x.X, true
+				case *ast.StarExpr:
+					e, through = x.X, true
+				default:
+					return nil
+				}
+			}
+		}
+		for _, f := range pk.Syntax {
+			ast.Inspect(f, func(n ast.Node) bool {
+				switch x := n.(type) {
+				case *ast.AssignStmt:
+					for _, l := range x.Lhs {
+						if o := base(l); o != nil {
+							partlyWritten[o] = true
+						}
+					}
+				case *ast.IncDecStmt:
+					if o := base(x.X); o != nil {
+						partlyWritten[o] = true
+					}
+				case *ast.UnaryExpr:
+					if x.Op == token.AND {
+						if id, ok := ast.Unparen(x.X).(*ast.Ident); ok {
+							if o := info.ObjectOf(id); o != nil {
+								partlyWritten[o] = true
+							}
+						} else if o := base(x.X); o != nil {
+							partlyWritten[o] = true
+						}
+					}
+				case *ast.CallExpr:
+					// a method with a pointer receiver called on the variable may write into it
+					if sel, ok := ast.Unparen(x.Fun).(*ast.SelectorExpr); ok {
+						if s := info.Selections[sel]; s != nil && s.Kind() == types.MethodVal {
+							if sig, ok := s.Obj().Type().(*types.Signature); ok && sig.Recv() != nil {
+								if _, ptr := sig.Recv().Type().(*types.Pointer); ptr {
+									if id, ok := ast.Unparen(sel.X).(*ast.Ident); ok {
+										if o := info.ObjectOf(id); o != nil {
+											if _, isPtr := o.Type().Underlying().(*types.Pointer); !isPtr {
+												partlyWritten[o] = true
+											}
+										}
+									}
+								}
+							}
+						}
+					}
+				}
+				return true
+			})
+		}
+	}
 	p.Unrolled = desugarTableLoops(p)
 	p.Clamps = desugarClamps(p)
 	return p, nil
 }
+
+// partlyWritten: variables of which a part is assigned somewhere (x.f = …, x[i] = …, x.f++), whose address is taken, or
+// on which a pointer-receiver method is called: the value they were defined with is not the value they hold later.
+var partlyWritten map[types.Object]bool
 
 // Pkg returns the (non-test) zrnt package with the path suffix, e.g. "eth2/beacon/common".
 func (p *Prog) Pkg(suffix string) *packages.Package {
